@@ -153,7 +153,7 @@ def run_scenario(sc, scripts, expected, root):
         events.append([kind] if kind == "RunPioVersion" else ([kind, dtag(cwd)] if kind != "RunOther" else [kind, rec["argv"]]))
         if not sc["pio"]:
             raise FileNotFoundError(2, "No such file or directory", "pio")
-        rc = 1 if ((kind == "RunBuild" and "build" in faults) or (kind == "RunUpload" and "upload" in faults)) else 0
+        rc = int(sc.get("rc", 1) or 1) if ((kind == "RunBuild" and "build" in faults) or (kind == "RunUpload" and "upload" in faults)) else 0
         rec["rc"] = rc
         if rc and check:
             raise subprocess.CalledProcessError(rc, args)
